@@ -956,25 +956,33 @@ ABT_bool ABTI_sched_has_unit(ABTI_sched *p_sched)
     for (p = 0; p < num_pools; p++) {
         ABT_pool pool = p_sched->pools[p];
         ABTI_pool *p_pool = ABTI_pool_get_ptr(pool);
-        if (!ABTI_pool_is_empty(p_pool))
-            return ABT_TRUE;
+        /* A blocked ULT that is being resumed is first pushed to its pool and
+         * only then removed from num_blocked.  num_blocked must therefore be
+         * read before the emptiness of the pool; in the opposite order a ULT
+         * resumed between the two reads is seen neither in the pool nor as
+         * blocked. */
+        int32_t num_blocked = 0;
         switch (p_pool->access) {
             case ABT_POOL_ACCESS_PRIV:
-                if (ABTD_atomic_acquire_load_int32(&p_pool->num_blocked))
-                    return ABT_TRUE;
+                num_blocked =
+                    ABTD_atomic_acquire_load_int32(&p_pool->num_blocked);
                 break;
             case ABT_POOL_ACCESS_SPSC:
             case ABT_POOL_ACCESS_MPSC:
             case ABT_POOL_ACCESS_SPMC:
             case ABT_POOL_ACCESS_MPMC:
                 if (ABTD_atomic_acquire_load_int32(&p_pool->num_scheds) == 1) {
-                    if (ABTD_atomic_acquire_load_int32(&p_pool->num_blocked))
-                        return ABT_TRUE;
+                    num_blocked =
+                        ABTD_atomic_acquire_load_int32(&p_pool->num_blocked);
                 }
                 break;
             default:
                 break;
         }
+        if (!ABTI_pool_is_empty(p_pool))
+            return ABT_TRUE;
+        if (num_blocked)
+            return ABT_TRUE;
     }
     return ABT_FALSE;
 }
